@@ -133,6 +133,40 @@ def r12_3(chk, tier, units=('jsonpath',)):
                 else: chk.fail('R12.3', site, fn['file'], st.get('l'), '%s: %s' % (fn['n'], '; '.join(problems)), fx, fn['q'])
     chk.require(n >= len(units) * 2, 'R12.3: only %d clamped slice loops found' % n)
 
+def r12_4(chk, facts):
+    """Sibling agreement: every json_replace overload evaluates with the same result options."""
+    chk.rule('R12.4', 'json_replace overloads agree: each evaluates the compiled expression with the same result_options set, which contains '
+                      'nodups (a node is replaced once) and path (replacement is by location)', floor=4)
+    fns = {}
+    for f in facts.functions:
+        if f['n'] == 'json_replace' and f['file'].endswith('json_query.hpp') and f.get('body') is not None and not f.get('dep'):
+            fns.setdefault((f['file'], f['l']), f)
+    chk.require(len(fns) >= 4, 'R12.4: only %d json_replace overloads instantiated' % len(fns))
+    sets = {}
+    for key, fn in sorted(fns.items()):
+        chk.analysed(fn)
+        opts = None
+        for c in A.calls_in(fn['body'], no_lambda=True):
+            if A.callee_name(c) == 'evaluate' and c.get('args'):
+                last = A.strip(c['args'][-1], casts=True)
+                src = last
+                if last is not None and last.get('k') == 'DeclRefExpr':
+                    for d in A.walk_no_lambda(fn['body']):
+                        if d.get('k') == 'VarDecl' and d.get('id') == last.get('id') and d.get('init') is not None: src = d['init']
+                opts = frozenset(y.get('n') for y in A.walk(src) if y.get('k') == 'DeclRefExpr' and y.get('dk') == 'EnumConstant')
+        if opts is None: continue      # an overload that forwards to another one
+        sets[key] = (fn, opts)
+    chk.require(len(sets) >= 4, 'R12.4: evaluate() call with result options found in only %d json_replace overloads' % len(sets))
+    from collections import Counter
+    ref = Counter(o for _, o in sets.values()).most_common(1)[0][0]
+    for key, (fn, opts) in sorted(sets.items()):
+        site = U.site(fn, 'json_replace@%d options' % (sorted(sets).index(key) + 1))
+        if opts == ref and {'nodups', 'path'} <= opts: chk.ok('R12.4', site, {'options': sorted(opts)})
+        else:
+            chk.fail('R12.4', site, fn['file'], fn['l'], 'this json_replace overload evaluates with options {%s}; its siblings use {%s}%s' % (
+                ', '.join(sorted(opts)), ', '.join(sorted(ref)), '' if {'nodups', 'path'} <= opts else ' (nodups and path are required: without nodups a node selected twice is replaced twice)'),
+                {'options': sorted(opts), 'siblings': sorted(ref)}, fn['q'])
+
 def run(chk, tier, only_rule=None):
     chk.explanation = EXPLANATION
     chk.not_decided = NOT_DECIDED
@@ -227,5 +261,6 @@ def run(chk, tier, only_rule=None):
     chk.require(m >= 2, 'R12.2: json_query/json_replace not found')
     c05.r05_5(chk, tier)
     r12_3(chk, tier)
+    r12_4(chk, facts)
     c05.r05_6(chk, tier, units=['jsonpath'], floor=80)
     c05.r05_7(chk, tier, units=['jsonpath'], floor=100)
